@@ -33,17 +33,26 @@ def _replay_state(st):
     problems = []
     want_get = {k: qpair(v) for k, v in (st["get"] or {}).items()}
     want_norm = {k: qpair(v) for k, v in (st["norm"] or {}).items()}
-    for name, conv, exact in _types():
+    for ti, (name, conv, exact) in enumerate(_types()):
+        # keys: the specification's names, or (every other value type) keys of mixed Python types that cannot be
+        # ordered among each other
+        km = (lambda k: k) if ti % 2 == 0 else (lambda k: {"a": 0, "b": "b", "c": 2.5, "d": (1, 2)}.get(k, k))
         base = ExponentialSmoothingTracker(alpha=ALPHA if exact else float(ALPHA)) if st["kind"] == "es" \
             else WelfordTracker()
         m = MultiValueTracker(base)
         try:
             for u in st["upds"]:
-                m.update({k: conv(v) for k, v in (u or {}).items()})
+                m.update({km(k): conv(v) for k, v in (u or {}).items()})
+                if m.get() != m():
+                    problems.append(("accessors." + name, str(m.get()), str(m())))
+                    break
             with warnings.catch_warnings():
                 warnings.simplefilter("ignore")
                 got = m.get()
                 norm = m.get_normalized()
+            inv = {km(k): k for k in want_get}
+            got = {inv.get(k, k): v for k, v in got.items()}
+            norm = {inv.get(k, k): v for k, v in norm.items()}
         except Exception as e:     # values of any real numeric type are accepted
             problems.append(("raises." + name, "%s: %s" % (type(e).__name__, str(e)[:120]), "no exception"))
             continue
